@@ -330,6 +330,8 @@ pub fn grid(t: bool) -> Vec<Point> {
     // (seeds beyond 32 bits: s and s + 2^32 must give different runs)
     let mut seeds: Vec<u64> = if t { (0..8).collect() } else { vec![0, 1] };
     seeds.extend([(1u64 << 32) + 1, (1 << 63) + 5]);
+    // the ends of the seed range and the values conventions like "-1 = pick one for me" would take
+    seeds.extend([u64::MAX, u64::MAX - 1, u32::MAX as u64, i64::MAX as u64]);
     let steps: Vec<u64> = if t { vec![1, 10, 50] } else { vec![10, 40] };
     let mut v = Vec::new();
     // large populations: one point each
